@@ -59,7 +59,11 @@ Plans == <<
   [p |-> Over(LOT, LAMBDA c : Fn("abs", <<c>>)), dist |-> FALSE],
   [p |-> Over(LOT, LAMBDA c : Agg("sum", FALSE, <<"b">>, <<c>>)), dist |-> FALSE],
   [p |-> Join(LOT, <<Num(1)>>, LAMBDA a, b : Fn("clamp_min", <<a, b>>)), dist |-> FALSE],
-  [p |-> Join(LOT, N2, LAMBDA a, b : BinM("+", a, b, FALSE, "N:1", TRUE, <<"a">>, <<>>)), dist |-> FALSE] >>
+  [p |-> Join(LOT, N2, LAMBDA a, b : BinM("+", a, b, FALSE, "N:1", TRUE, <<"a">>, <<>>)), dist |-> FALSE],
+  \* joins that keep the labels of the many side (filtering comparisons) and include a label the many side already has
+  [p |-> Join(M, N2, LAMBDA a, b : BinM(">", a, b, FALSE, "N:1", TRUE, <<"a">>, <<"Z">>)), dist |-> FALSE],
+  [p |-> Join(N2, M, LAMBDA a, b : BinM("<", a, b, FALSE, "1:N", TRUE, <<"a">>, <<"Z">>)), dist |-> FALSE],
+  [p |-> Join(M, N2, LAMBDA a, b : BinM("!=", a, b, FALSE, "N:1", FALSE, <<"b", "Z">>, <<"Z">>)), dist |-> FALSE] >>
 
 VARIABLE g
 Init == g \in [p : 1..Len(Plans), win : {"instant", "range", "long"}, procs : IF Q THEN {2, 4} ELSE {2, 4, 8}, dist : {0, 1}, wide : BOOLEAN]
